@@ -186,7 +186,7 @@ pub fn run(ctx: &Ctx) -> Report {
     // blocks in between): everything selected, and the multi-run file alone
     for (cfg, ops) in crate::c01::corpus() {
         let b = build(&cfg, &ops);
-        if !b.finalized || ops.len() < 6 { continue; }
+        if !b.finalized || ops.len() < 6 || ops.len() > 300 { continue; }
         let names: Vec<String> = spec_of(&ops, &b.results).keys().cloned().collect();
         for s in [names.clone(), names.iter().take(1).cloned().collect()] {
             if !check(&mut rep, &mut model, &cfg, &ops, &b, &s, &mut rng) && rep.full() { return rep; }
